@@ -126,6 +126,20 @@ def scenarios(ctx):
                        budgets=dict(pub=1, sub=1, ack=1 if q else 2, tick=2 if q else 3, lose=1, disconnect=1, inpub=1, inrel=1,
                                     rebuild=1, connect=1, connack=1),
                        inpubs=inp[1:], inrels=((2,),), closing=False))
+    # persistent session with a mixed-QoS queue carried across a loss (what is released or re-sent at CONNACK must be well-formed)
+    out.append(Std('persist-queue', profile='pub', mode='sync', init=(('connect', 0, False, 0, 4), ('connack', 0, 0, False)),
+                   connects=[(False, 0, 4)], reconnects=[(False, 0, 4), (False, 0, 3)], pub_qos=(0, 1, 2), windows=(2,),
+                   budgets=dict(pub=3, ack=1 if q else 2, dack=0 if q else 1, lose=1, rebuild=1, connect=1, connack=1, setwin=1, tick=0 if q else 2),
+                   closing=False))
+    # repeated acknowledgements, then disconnect()/loss, then time passes
+    for mode in ('sync', 'async'):
+        out.append(Std('q2-dup-acks-%s' % mode, profile='pub', mode=mode, init=CONNECTED, pub_qos=(2,), api_after_close=True,
+                       rx_after_close=True, budgets=dict(pub=1, ack=2, dack=1, disconnect=1, lose=1, tick=3), closing=False))
+    # the transport is lost before connect() was ever called; the application connects all the same
+    for mode in ('sync', 'async'):
+        out.append(Std('lost-before-connect-%s' % mode, profile='pubsub', mode=mode, connects=[(True, 0, 4), (False, 2, 3)],
+                       reconnects=[(False, 2, 3)], pub_qos=(1,), api_after_close=True, rx_after_close=True, lose_new=True,
+                       budgets=dict(connect=1, connack=1, reconn2=1, pub=1, tick=2, lose=2, rebuild=1), closing=False))
     # re-entrant use of the API from inside the application's own callbacks
     for mode in ('sync', 'async'):
         out.append(Std('reenter-errback-publish-%s' % mode, profile='pub', mode=mode, init=CONNECTED + (('setwin', 0, 2),),
